@@ -8,8 +8,8 @@ LEVEL_TEXT = ("Per Z3 declaration kind that claripy can emit and per sort/width:
               "ConstrainedFrontend.simplify is proved to keep the model set given the contract of simplify.  Z3's own simplifier/tactics are trusted.")
 TECHNIQUE = "translation validation per operator kind with z3 equivalence proofs + pyvc proof of ConstrainedFrontend.simplify"
 M = "vf.contracts.z3rt"
-FUNCTIONS = ["BackendZ3._abstract_internal", "BackendZ3.convert/_op_raw_* (round trip)", "backend_z3.op_map", "backend_z3.op_type_map", "ConstrainedFrontend.simplify"]
-TRUSTED = ["z3.simplify and the tactic pipeline are meaning preserving", "z3 decides the equivalences",
+FUNCTIONS = ["BackendZ3._abstract_internal", "BackendZ3.convert/_op_raw_* (round trip)", "backend_z3.op_map", "backend_z3.op_type_map", "ConstrainedFrontend.simplify", "BackendZ3._boolref_tactics (frame: only equivalence-preserving tactics)", "BackendZ3.simplify"]
+TRUSTED = ["z3.simplify and the tactics listed in z3rt.EQUIVALENCE_PRESERVING_TACTICS, combined with Then, are meaning preserving (that the backend uses only those is the frame obligation z3rt.tactics/...)", "z3 decides the equivalences",
            "the abstraction cache is keyed by the Z3 AST pointer with a reference held (no pointer reuse)"]
 ASSUMPTIONS = ["Z3-only operator kinds (bvsdiv_i, ...) are harvested from what the installed Z3's simplifier and claripy's tactic pipeline return for the hand-built terms",
                "integer-sorted kinds, IFF, INTERNAL, REPEAT are outside the round trip (reasons in vf/contracts/z3rt.py NOT_ROUNDTRIPPED)",
@@ -30,5 +30,8 @@ def tasks(tier, seed=0):
     out.append(task(M, "ob_hash_collision", "z3rt.abstraction-cache/terms-with-colliding-z3-hashes", ["C09", "C26"], replay="vf.contracts.z3rt:replay", tier=tier))
     out.append(task(M, "ob_symbol_history", "z3rt.symbol-leaf/sort-independent-of-history", ["C09", "C05"], replay="vf.contracts.z3rt:replay", tier=tier))
     out.append(task(M, "ob_totality", "z3rt.totality/all-claripy-operators", ["C09"], replay="vf.contracts.z3rt:replay", tier=tier))
+    # the trusted base pinned: which Z3 tactics simplify() runs (frame), and the real pipeline on a corpus (bounded)
+    out.append(task(M, "ob_tactic_frame", "z3rt.tactics/only-equivalence-preserving-tactics", ["C09"], replay="vf.contracts.z3rt:replay_tactics", tier=tier))
+    out.append(task(M, "tactic_corpus", "z3rt.tactics/pipeline-equivalent-on-corpus", ["C09"], kind="bounded", replay="vf.contracts.z3rt:replay_tactics", tier=tier))
     out.append(task("vf.contracts.frontend", "ob_simplify", "frontend.ConstrainedFrontend.simplify/models-unchanged", ["C09", "C07"], tier=tier))
     return out
